@@ -200,7 +200,7 @@ partial def loop (h : IO.FS.Stream) (s : DS) : IO Unit := do
     IO.println "ok"
     loop h { g, limit := lim.toNat!, pc := { st := Http.init g, cache := [] }, cur := none }
   | "D" :: hx :: rest =>
-    let data := unhex hx
+    let data := if hx == "-" then [] else unhex hx
     let badUrls := hexList ((field rest "badurl").getD "")
     let badProtos := hexList ((field rest "badproto").getD "")
     let okProtos := hexList ((field rest "okproto").getD "")
